@@ -21,12 +21,12 @@ from pathlib import Path
 from lib import S, B, observe_call
 
 ALSO = ["C03b"]   # second engine for this property: the text layer (csv / json / UTF-8 models; harness/c03b.py, coq/Judge/JC03b.v, coq/Props/C03b.v)
-GEN = ["NameCleanerParams", "HeaderRowParams", "RegistryParams", "RecfmParams", "EstructParams", "Cp037", "TextCodec"]
+GEN = ["NameCleanerParams", "HeaderRowParams", "RegistryParams", "RecfmParams", "EstructParams", "Cp037", "TextCodec", "CsvOpenParams"]
 RULE = ("streams: long = one table of 1650 (thorough: up to 4000) rows whose fixed-width / EBCDIC images exceed the 32 KiB read buffer, as CSV, fixed text and EBCDIC (RECFM N and F); shapes = every table shape 1..3 columns x 0..2 rows (exhaustive over shapes, distinct cell labels) in CSV, TAB, XLSX, "
         "ODS, NDJSON, fixed text, EBCDIC (RECFM N, F with and without lrecl); plain = workbooks of 1-3 sheets, tables 1-6 columns with "
         "distinct header names sampled from a pool (blanks, punctuation, quotes, commas, tabs, non-ASCII) x 0-8 rows of non-empty "
         "text cells from a pool (quotes, commas, tabs, leading zeros, leading/trailing blanks, Latin-1 and non-Latin-1 letters, a line "
-        "feed, the str.splitlines-only line ends U+0085 U+2028 U+2029 in mid-cell, =1+1, TRUE, 1.50, None, dates), written to CSV, TAB, XLSX, ODS, "
+        "feed, a carriage return, CR LF, LF CR, the str.splitlines-only line ends U+0085 U+2028 U+2029 in mid-cell, =1+1, TRUE, 1.50, None, dates), written to CSV, TAB, XLSX, ODS, "
         "NDJSON twice (json.dumps with ensure_ascii True and False) (one file per sheet for single-sheet formats) "
         "and, for a sample, Numbers (consecutive sheets sometimes stored as tables of one Numbers sheet); cobol = the same with "
         "COBOL data names as headers, column widths 1-12, cells of the CP037 repertoire no longer than their column (a third of the "
@@ -48,7 +48,9 @@ ASSUMPTIONS = [
     "domain of H_ext per writer: openpyxl raises IllegalCharacterError and the ODS writer ValueError for C0 control characters "
     "(VT, FF, FS, GS, RS, ...) in a cell, so tables containing them are not stored as XLSX/ODS; U+0085, U+2028, U+2029 round-trip in "
     "every third-party format; the ODS pair rewrites quote characters and outer blanks in SHEET names",
-    "domain: non-empty text cells written as explicit string cells, no carriage return in a cell (a text-mode file translates it), "
+    "domain: non-empty text cells written as explicit string cells (a carriage return, CR LF or LF inside a cell is a character like any "
+    "other in every third-party format: CSVUnpacker opens its file with newline='' since commit aa3b8fc, and openpyxl, the ODS pair and "
+    "numbers_parser give it back unchanged), "
     "no line break in a cell of a fixed-width text file, distinct non-empty column names, distinct sheet names, rectangular tables",
     "a text file is its decoded characters: the UTF-8 codec round trip and the io text layer (universal newlines, line iteration as modelled "
     "by text_lines) are trusted; an EBCDIC file is its bytes; file.read(n) on a regular file returns n bytes unless at end of file",
@@ -71,13 +73,13 @@ ANCHOR_PAIRS = [("a b", "a_b"), ("Total %", "Total_"), ("-x", "_x"), (".y", "_y"
 COBOL_NAMES = ["COL-A", "B2", "CUST-NM", "ZIP", "AMT", "X", "FLD-1", "FLD-2", "REC-KEY", "Q9", "CITY", "W-99", "LAST-ONE"]
 CELLS = ["1", "00123", "abc", "x y", " lead", "trail ", "é", "ß", "Ñandú", "a,b", "\"q\"", "it's", "tab\there", "=1+1", "TRUE", "FALSE",
          "1.50", "None", "null", "-7", "0", "1e5", "2024-01-01", "12:30", "50%", "$5", "#N/A", "1/2", " ", "  ", "\xa0", "a;b", "a|b",
-         "名", "\U0001f600", "line\nbreak", "long cell with several words, a comma and a \"quoted\" part",
+         "名", "\U0001f600", "line\nbreak", "car\rret", "cr\r\nlf", "\r", "x\n\ry", "long cell with several words, a comma and a \"quoted\" part",
          # characters str.splitlines() treats as line ends but files, csv and JSON do not: legal unescaped inside a JSON string
          "a\x85b", "line\u2028sep", "par\u2029sep"]
 # C0 controls that str.splitlines() also splits on.  openpyxl (IllegalCharacterError) and the ODS writer (not XML compatible)
 # refuse them, so tables drawing on this pool are not written to XLSX/ODS (stream ctl).
 CTL_CELLS = ["v\x0bt", "f\x0cf", "fs\x1cx", "gs\x1dx", "rs\x1ey", "\x1c"]
-LATIN = [c for c in CELLS if all(ord(ch) < 256 for ch in c) and "\n" not in c]
+LATIN = [c for c in CELLS if all(ord(ch) < 256 for ch in c) and "\n" not in c and "\r" not in c]
 # no quote characters, no leading/trailing blanks: the ODS writer/reader pair rewrites them (a'b comes back as 'a b')
 SHEET_NAMES = ["Sheet1", "Data", "Second sheet", "Ünï", "a.b", "x-y", "S 3", "Q&A", "2024", "(x)", "50%", "名前", "a,b"]
 TABLE_NAMES = ["Table 1", "T", "Tab::2", "Päge"]
